@@ -204,8 +204,13 @@ def main():
     # ---------------- evidence ----------------
     wall = time.time() - t0
     ev = build_evidence(prop, spec, tier, seed, ded, bnd, undecided, violations, known_lines, internal, wall)
-    os.makedirs(os.path.join(HERE, "evidence"), exist_ok=True)
-    json.dump(ev, open(os.path.join(HERE, "evidence", prop + ".json"), "w"), indent=1, ensure_ascii=False, default=repr)
+    # evidence/<id>.json describes /repo itself; a run against another copy (VERIF_REPO: self-tests, seeded changes,
+    # harmless edits) writes to evidence/scratch/ (ignored by git) so that it never replaces the committed evidence
+    ev_dir = os.path.join(HERE, "evidence")
+    if os.path.realpath(repo) != os.path.realpath("/repo"):
+        ev_dir = os.path.join(HERE, "evidence", "scratch")
+    os.makedirs(ev_dir, exist_ok=True)
+    json.dump(ev, open(os.path.join(ev_dir, prop + ".json"), "w"), indent=1, ensure_ascii=False, default=repr)
 
     for u in undecided:
         print("UNDECIDED obligation=%s" % u)
